@@ -925,6 +925,10 @@ class Engine:
                 return r_
         return VStr("<f-string>")
 
+    def ev_GeneratorExp(self, n, st):
+        """a generator expression consumed at once by its caller (set(...), list(...), join): evaluated like the list comprehension of the same shape"""
+        return self.ev_ListComp(n, st)
+
     def ev_ListComp(self, n, st):
         if ast.unparse(n) in getattr(self, "comp_models", {}):       # table-driven model of one specific comprehension (listed as trusted)
             return self.comp_models[ast.unparse(n)](self, st, n)
@@ -1303,6 +1307,11 @@ class Engine:
                 continue
             if isinstance(op, (ast.In, ast.NotIn)) and isinstance(right, VTuple) and isinstance(left, VNum) and all(isinstance(q_, VNum) for q_ in right.items):
                 c = z3.Or([z3.BoolVal(False)] + [num_pair(left, q_)[0] == num_pair(left, q_)[1] for q_ in right.items])
+                conj.append(c if isinstance(op, ast.In) else z3.Not(c))
+                left = right
+                continue
+            if isinstance(op, (ast.In, ast.NotIn)) and isinstance(right, VTuple) and hasattr(left, "vattr") and all(hasattr(q_, "vattr") for q_ in right.items):
+                c = z3.BoolVal(any(q_ is left for q_ in right.items))          # contract-defined objects: membership by identity
                 conj.append(c if isinstance(op, ast.In) else z3.Not(c))
                 left = right
                 continue
@@ -1885,6 +1894,7 @@ class Engine:
                     if h.type is None or exc_matches(val, names):
                         if h.name:
                             s.locals[h.name] = VOpaque(("exc", val))
+                        s.locals["#handling"] = val
                         outs.extend(self.run(h.body, s))
                         break
                 else:
@@ -1978,6 +1988,8 @@ class Engine:
         raise Unsupported("expr stmt " + ast.unparse(n))
 
     def st_Raise(self, n, st):
+        if n.exc is None:          # bare `raise` inside a handler: the exception being handled
+            return [(st, "raise", st.locals.get("#handling", "Exception"))]
         return [(st, "raise", ast.unparse(n.exc.func) if isinstance(n.exc, ast.Call) else ast.unparse(n.exc))]
 
     def st_Return(self, n, st):
@@ -2382,6 +2394,9 @@ class Engine:
         i = h.locals[gi].e
         exits = []
         b = h.copy().assume(z3.And(0 <= i, i < ln))
+        # vacuity guard for the inductive step: the body must be reachable for an iteration AFTER the first one (i >= 1); if that is refutable, the havoc at the
+        # loop head or the invariant pins the loop to its first iteration and 'preserve' proves nothing about the others
+        self.oblige(f"loop{k}.later-iteration.CANARY", b.copy().assume(i >= 1), z3.BoolVal(False))
         self.store(n.target, self.iter_item(it, i), b)
         for s, flow, val in self.run(n.body, b):
             if flow in ("next", "continue"):
